@@ -7,7 +7,10 @@ import (
 	"net/url"
 	"os"
 	"strings"
+	"sync"
 	"time"
+
+	"github.com/saucelabs/forwarder"
 
 	"verifharness/coqfmt"
 	"verifharness/g01rig"
@@ -26,6 +29,9 @@ type xreq struct {
 	BodySeed uint64         `json:"body_seed"`
 	Chunks   []int          `json:"chunks,omitempty"`
 	RawOWS   bool           `json:"raw_ows"` // send extra white space around the field values
+	// Deny: the request goes to a host the proxy's deny-domains rule refuses (403, nothing forwarded); it is
+	// there for the requests that FOLLOW it on the connection (its body must not leak into them)
+	Deny bool `json:"deny,omitempty"`
 }
 
 type xconn struct {
@@ -55,6 +61,8 @@ type xrec struct {
 	Kind  string `json:"kind"`
 	Obs   xobsJ `json:"_obs"`
 }
+
+const deniedHost = "denied.test"
 
 type e2eRig struct {
 	O, P, T          *g01rig.Origin // plain origin, scripted upstream proxy, TLS origin
@@ -97,11 +105,14 @@ func newE2ERig() (*e2eRig, error) {
 	if err != nil {
 		return nil, err
 	}
-	pd, err := g01rig.StartProxyOpts("forwarder", g01rig.ProxyOpts{ConnectHeaderCallback: true})
+	deny := func(cfg *forwarder.HTTPProxyConfig) {
+		cfg.DenyDomains = forwarder.MatchFunc(func(h string) bool { return h == deniedHost })
+	}
+	pd, err := g01rig.StartProxyOpts("forwarder", g01rig.ProxyOpts{ConnectHeaderCallback: true, Tweak: deny})
 	if err != nil {
 		return nil, err
 	}
-	pu, err := g01rig.StartProxyOpts("forwarder", g01rig.ProxyOpts{ConnectHeaderCallback: true})
+	pu, err := g01rig.StartProxyOpts("forwarder", g01rig.ProxyOpts{ConnectHeaderCallback: true, Tweak: deny})
 	if err != nil {
 		return nil, err
 	}
@@ -110,7 +121,7 @@ func newE2ERig() (*e2eRig, error) {
 	if err != nil {
 		return nil, err
 	}
-	pm, err := g01rig.StartProxyOpts("forwarder", g01rig.ProxyOpts{ConnectHeaderCallback: true, MITM: true})
+	pm, err := g01rig.StartProxyOpts("forwarder", g01rig.ProxyOpts{ConnectHeaderCallback: true, MITM: true, Tweak: deny})
 	if err != nil {
 		return nil, err
 	}
@@ -274,6 +285,11 @@ func (rg *e2eRig) runConn(c xconn) ([]xobsJ, []sentInfo) {
 		if k < len(reqs) {
 			obs[len(obs)-1].Count += len(reqs) - k
 		}
+		for i, q := range c.Reqs {
+			if q.Deny && obs[i].Err == "" && obs[i].Status != 403 {
+				obs[i].Err = fmt.Sprintf("denied request answered %d", obs[i].Status)
+			}
+		}
 		return obs, sent
 	}
 	for i, q := range c.Reqs {
@@ -299,6 +315,9 @@ func (rg *e2eRig) runConn(c xconn) ([]xobsJ, []sentInfo) {
 		}
 		obs[i].Status = res.Status
 		fill(i, sink.Since(n1))
+		if q.Deny && (res.Status != 403 || obs[i].Count != 0) {
+			obs[i].Err = fmt.Sprintf("denied request answered %d, %d requests reached the next hop", res.Status, obs[i].Count)
+		}
 	}
 	return obs, sent
 }
@@ -306,7 +325,7 @@ func (rg *e2eRig) runConn(c xconn) ([]xobsJ, []sentInfo) {
 // transportTrouble: an exchange failed below HTTP although the previous one on the connection was answered 200.
 func transportTrouble(obs []xobsJ) bool {
 	for i, o := range obs {
-		if i > 0 && obs[i-1].Status != 200 {
+		if i > 0 && obs[i-1].Status != 200 && obs[i-1].Status != 403 {
 			return false
 		}
 		if o.Err != "" {
@@ -492,6 +511,24 @@ func genXreq(r *rng.R, last bool) xreq {
 	return q
 }
 
+// deniedReq: a body-carrying request to the denied host (refused with 403 by the deny-domains control).
+func deniedReq(r *rng.R) xreq {
+	q := xreq{Method: r.Pick([]string{"POST", "PUT"}), Target: "http://" + deniedHost + "/refused", Proto: "HTTP/1.1",
+		Fields: []g01rig.Field{{Name: "Host", Value: deniedHost}, {Name: "X-A", Value: "denied"}}, BodySeed: r.U64(), Deny: true}
+	q.BodyLen = []int{1, 100, 4095, 4096, 4097, 8192, 32769}[r.Intn(7)]
+	if r.Chance(1, 2) {
+		q.Framing = "cl"
+	} else {
+		q.Framing = "chunked"
+		for rem := q.BodyLen; rem > 0; {
+			n := 1 + r.Intn(5000)
+			q.Chunks = append(q.Chunks, n)
+			rem -= n
+		}
+	}
+	return q
+}
+
 func genXconn(r *rng.R) xconn {
 	c := xconn{Kind: "e2e", Mode: "D"}
 	switch r.Intn(6) {
@@ -503,7 +540,7 @@ func genXconn(r *rng.R) xconn {
 	n := 1 + r.Intn(4)
 	for i := 0; i < n; i++ {
 		q := genXreq(r, i == n-1)
-		if c.Mode == "M" {
+		if c.Mode == "M" && !q.Deny {
 			// inside the intercepted tunnel requests are in origin-form; X-Forwarded-Proto would select the
 			// scheme of the next hop (C07's business)
 			q.Target = strings.TrimPrefix(q.Target, "http://{O}")
@@ -519,6 +556,16 @@ func genXconn(r *rng.R) xconn {
 			q.Fields = fs
 		}
 		c.Reqs = append(c.Reqs, q)
+	}
+	if n > 1 && r.Chance(1, 4) {
+		c.Reqs[r.Intn(n-1)] = deniedReq(r)
+	}
+	if c.Mode == "M" {
+		for i := range c.Reqs {
+			if c.Reqs[i].Deny {
+				c.Reqs[i].Target = "/refused"
+			}
+		}
 	}
 	c.Pipelined = n > 1 && r.Chance(1, 4)
 	if !c.Pipelined && r.Chance(1, 3) {
@@ -540,6 +587,14 @@ func xcorpus() []xconn {
 		one("D", xreq{Method: "GET", Target: "/x", Proto: "HTTP/1.1", Fields: []g01rig.Field{h, {"Connection", "x-a, keep-alive"}, {"X-A", "1"}, {"Keep-Alive", "timeout=5"}, {"Proxy-Authorization", "Basic Zm9vOmJhcg=="}, {"TE", "trailers"}, {"X-B", "2"}}, Framing: "none"}),
 		one("D", xreq{Method: "GET", Target: "/x{y}?q={z}", Proto: "HTTP/1.1", Fields: []g01rig.Field{h}, Framing: "none"}),
 		one("D", xreq{Method: "GET", Target: "/loop", Proto: "HTTP/1.1", Fields: []g01rig.Field{h, {"Via", "1.1 alpha"}, {"Via", "1.1 {TAG}"}}, Framing: "none"}),
+		{Kind: "e2e", Mode: "D", Reqs: []xreq{
+			{Method: "POST", Target: "http://" + deniedHost + "/refused", Proto: "HTTP/1.1", Fields: []g01rig.Field{{"Host", deniedHost}}, Framing: "cl", BodyLen: 4097, BodySeed: 11, Deny: true},
+			{Method: "GET", Target: "/after-refused-cl", Proto: "HTTP/1.1", Fields: []g01rig.Field{h, {"X-A", "next"}}, Framing: "none"},
+		}},
+		{Kind: "e2e", Mode: "U", Reqs: []xreq{
+			{Method: "PUT", Target: "http://" + deniedHost + "/refused", Proto: "HTTP/1.1", Fields: []g01rig.Field{{"Host", deniedHost}}, Framing: "chunked", BodyLen: 4096, BodySeed: 12, Chunks: []int{1, 4000}, Deny: true},
+			{Method: "POST", Target: "http://{O}/after-refused-chunked", Proto: "HTTP/1.1", Fields: []g01rig.Field{h}, Framing: "cl", BodyLen: 100, BodySeed: 13},
+		}},
 		{Kind: "e2e", Mode: "M", Reqs: []xreq{
 			{Method: "GET", Target: "/inside?tunnel=1", Proto: "HTTP/1.1", Fields: []g01rig.Field{h, {"X-A", "1"}, {"X-A", "2"}, {"Via", "1.1 alpha"}}, Framing: "none"},
 			{Method: "POST", Target: "/upload", Proto: "HTTP/1.1", Fields: []g01rig.Field{h, {"Connection", "x-b"}, {"X-B", "gone"}}, Framing: "chunked", BodyLen: 32768, BodySeed: 5, Chunks: []int{4097, 4095}},
@@ -562,7 +617,7 @@ func runE2E(r *rng.R, tier, out string, m *meta) {
 		os.Exit(4)
 	}
 	defer rg.stop()
-	nX := 500
+	nX := 420
 	if tier == "thorough" {
 		nX = 6000
 	}
@@ -592,8 +647,15 @@ func runE2E(r *rng.R, tier, out string, m *meta) {
 		}
 		for i, o := range obs {
 			q := c.Reqs[i]
-			if i > 0 && obs[i-1].Status != 200 {
+			if i > 0 && obs[i-1].Status != 200 && !(c.Reqs[i-1].Deny && obs[i-1].Status == 403) {
 				break // the connection ended with the previous exchange
+			}
+			if q.Deny {
+				stats["denied_requests_with_body_before_another_request"]++
+				if o.Err != "" {
+					m.E2EErrors = append(m.E2EErrors, fmt.Sprintf("%s denied #%d: %s", c.Mode, i, o.Err))
+				}
+				continue // not a forwarded exchange: nothing to compare, it only sets the stage for the next one
 			}
 			if o.Err != "" {
 				m.E2EErrors = append(m.E2EErrors, fmt.Sprintf("%s %s #%d: %s", c.Mode, q.Target, i, o.Err))
@@ -612,6 +674,17 @@ func runE2E(r *rng.R, tier, out string, m *meta) {
 			xj = append(xj, xrec{Conn: c, Index: i, Kind: "e2e", Obs: o})
 		}
 	}
+	// concurrent clients (after the sequential part so that origin request attribution above stays exact)
+	nW, perW := 8, 10
+	if tier == "thorough" {
+		nW, perW = 16, 100
+	}
+	cxc, cxj, cerrs := rg.runConcurrent(r, nW, perW)
+	xc = append(xc, cxc...)
+	xj = append(xj, cxj...)
+	m.E2EErrors = append(m.E2EErrors, cerrs...)
+	stats["concurrent_exchanges"] = len(cxc)
+	stats["concurrent_workers"] = nW
 	m.OriginErrors = append(m.OriginErrors, rg.O.Errors()...)
 	m.OriginErrors = append(m.OriginErrors, rg.P.Errors()...)
 	m.OriginErrors = append(m.OriginErrors, rg.T.Errors()...)
@@ -626,6 +699,86 @@ func runE2E(r *rng.R, tier, out string, m *meta) {
 	}
 	writeJSONL(out, "xcases.jsonl", xj)
 	m.Samples = append(m.Samples, xj[len(xj)-1])
+}
+
+// runConcurrent: nWorkers clients at the same time through the same proxy instance, each with its own Via chain,
+// client protocol version and target; what the origin received for each target is compared like any other exchange
+// (the model is a function of the single request: concurrency must not matter).
+func (rg *e2eRig) runConcurrent(r *rng.R, nWorkers, perWorker int) ([]string, []any, []string) {
+	type job struct {
+		c   xconn
+		obs xobsJ
+		s   sentInfo
+	}
+	jobs := make([][]job, nWorkers)
+	for w := 0; w < nWorkers; w++ {
+		for i := 0; i < perWorker; i++ {
+			q := xreq{Method: "GET", Target: fmt.Sprintf("http://{O}/c/%d-%d?w=%d", w, i, w), Proto: "HTTP/1.1", Framing: "none",
+				Fields: []g01rig.Field{{Name: "Host", Value: "{O}"}, {Name: "X-Worker", Value: fmt.Sprint(w)}}}
+			if (w+i)%3 == 0 {
+				q.Proto = "HTTP/1.0"
+			}
+			for l, n := 0, 1+(w+i)%3; l < n; l++ {
+				q.Fields = append(q.Fields, g01rig.Field{Name: "Via", Value: fmt.Sprintf("1.%d hop-w%d-r%d-l%d (%s)", l%2, w, i, l, strings.Repeat("x", 1+r.Intn(40)))})
+			}
+			if r.Chance(1, 3) {
+				q.Method, q.Framing, q.BodyLen, q.BodySeed = "POST", "cl", 1+r.Intn(5000), r.U64()
+			}
+			jobs[w] = append(jobs[w], job{c: xconn{Kind: "e2e", Mode: "D", Reqs: []xreq{q}}})
+		}
+	}
+	_, n0 := rg.O.Snapshot()
+	var wg sync.WaitGroup
+	for w := range jobs {
+		wg.Add(1)
+		go func(w int) {
+			defer wg.Done()
+			for i := range jobs[w] {
+				j := &jobs[w][i]
+				raw, target, fields, body := rg.render(j.c.Reqs[0], rg.tagD, rg.O.Addr())
+				j.s = sentInfo{target, fields, body}
+				cl, err := g01rig.Dial(rg.PD.Addr)
+				if err != nil {
+					j.obs.Err = err.Error()
+					continue
+				}
+				res, err := cl.Do(raw, j.c.Reqs[0].Method)
+				cl.Close()
+				if err != nil {
+					j.obs.Err = err.Error()
+					continue
+				}
+				j.obs.Status = res.Status
+			}
+		}(w)
+	}
+	wg.Wait()
+	byTarget := map[string][]*g01rig.RawRequest{}
+	for _, rq := range rg.O.Since(n0) {
+		byTarget[rq.Target] = append(byTarget[rq.Target], rq)
+	}
+	var xc []string
+	var xj []any
+	var errs []string
+	for w := range jobs {
+		for i := range jobs[w] {
+			j := &jobs[w][i]
+			if j.obs.Err != "" {
+				errs = append(errs, fmt.Sprintf("concurrent w%d #%d: %s", w, i, j.obs.Err))
+			}
+			got := byTarget[strings.TrimPrefix(j.s.target, "http://"+rg.O.Addr())]
+			j.obs.Count = len(got)
+			if len(got) > 0 {
+				rq := got[0]
+				j.obs.Method, j.obs.Target, j.obs.Proto = rq.Method, rq.Target, rq.Proto
+				j.obs.Fields, j.obs.Framing, j.obs.BodyLen = rq.Fields, rq.Framing, len(rq.Body)
+				j.obs.BodyEqual = bytes.Equal(rq.Body, j.s.body)
+			}
+			xc = append(xc, rg.coqXcase(j.c, 0, j.obs, j.s))
+			xj = append(xj, xrec{Conn: j.c, Index: 0, Kind: "e2e", Obs: j.obs})
+		}
+	}
+	return xc, xj, errs
 }
 
 func writeShardX(dir string, idx int, cases []string) {
